@@ -608,6 +608,19 @@ fn encode_args(
             // converted to not be optional arguments? Panic?
         }
 
+        // A value that fits neither as a signed nor as an unsigned integer of the parameter's width
+        // would be silently truncated by the writes below.
+        if let ArgEncoding::Integer { size: size @ (1 | 2), .. } = *enc {
+            let value = arg.expect_raw().expect_int() as i64;
+            let num_bits = 8 * size as u32;
+            if !(-(1_i64 << (num_bits - 1)) <= value && value < (1_i64 << num_bits)) {
+                return Err(emitter.emit(error!(
+                    message("argument does not fit"),
+                    primary(arg, "{value} does not fit in a {}", enc.descr()),
+                )));
+            }
+        }
+
         match *enc {
             | ArgEncoding::Integer { arg0: true, .. }
             | ArgEncoding::Padding { .. }
